@@ -145,6 +145,8 @@ func (n *RaftNode) AddBulk(bulk [][]byte) ([]*balloon.Snapshot, error) {
 // QueryDigestMembershipConsistency acts as a passthrough when an event digest is given to
 // request a membership proof against a certain balloon version.
 func (n *RaftNode) QueryDigestMembershipConsistency(keyDigest hashing.Digest, version uint64) (*balloon.MembershipProof, error) {
+	n.applyMu.RLock()
+	defer n.applyMu.RUnlock()
 	n.metrics.DigestMembershipQueries.Inc()
 	return n.balloon.QueryDigestMembershipConsistency(keyDigest, version)
 }
@@ -152,6 +154,8 @@ func (n *RaftNode) QueryDigestMembershipConsistency(keyDigest hashing.Digest, ve
 // QueryMembershipConsistency acts as a passthrough when an event is given to request a
 // membership proof against a certain balloon version.
 func (n *RaftNode) QueryMembershipConsistency(event []byte, version uint64) (*balloon.MembershipProof, error) {
+	n.applyMu.RLock()
+	defer n.applyMu.RUnlock()
 	n.metrics.MembershipQueries.Inc()
 	return n.balloon.QueryMembershipConsistency(event, version)
 }
@@ -159,6 +163,8 @@ func (n *RaftNode) QueryMembershipConsistency(event []byte, version uint64) (*ba
 // QueryDigestMembership acts as a passthrough when an event digest is given to request a
 // membership proof against the last balloon version.
 func (n *RaftNode) QueryDigestMembership(keyDigest hashing.Digest) (*balloon.MembershipProof, error) {
+	n.applyMu.RLock()
+	defer n.applyMu.RUnlock()
 	n.metrics.DigestMembershipQueries.Inc()
 	return n.balloon.QueryDigestMembership(keyDigest)
 }
@@ -166,12 +172,16 @@ func (n *RaftNode) QueryDigestMembership(keyDigest hashing.Digest) (*balloon.Mem
 // QueryMembership acts as a passthrough when an event is given to request a membership proof
 // against the last balloon version.
 func (n *RaftNode) QueryMembership(event []byte) (*balloon.MembershipProof, error) {
+	n.applyMu.RLock()
+	defer n.applyMu.RUnlock()
 	n.metrics.MembershipQueries.Inc()
 	return n.balloon.QueryMembership(event)
 }
 
 // QueryConsistency acts as a passthrough when requesting an incremental proof.
 func (n *RaftNode) QueryConsistency(start, end uint64) (*balloon.IncrementalProof, error) {
+	n.applyMu.RLock()
+	defer n.applyMu.RUnlock()
 	n.metrics.IncrementalQueries.Inc()
 	return n.balloon.QueryConsistency(start, end)
 }
@@ -258,6 +268,13 @@ func (n *RaftNode) Restore(rc io.ReadCloser) error {
 }
 
 func (n *RaftNode) applyAdd(hashes []hashing.Digest, state *fsmState) *fsmResponse {
+
+	// The balloon advances its in-memory trees when it computes the
+	// insertion, but the nodes it produced reach the store only with the
+	// Mutate below. Queries must not run in between: they would read tree
+	// nodes that are not stored yet.
+	n.applyMu.Lock()
+	defer n.applyMu.Unlock()
 
 	resp := new(fsmResponse)
 	snapshotBulk, mutations, err := n.balloon.AddBulk(hashes)
